@@ -172,7 +172,14 @@ pub fn state(id: usize) -> StreamState {
 }
 
 pub fn set_budget(id: usize, budget: Option<u64>) {
-	with_reg(|r| r.entry(id).or_default().budget = budget);
+	with_reg(|r| {
+		let st = r.entry(id).or_default();
+		st.budget = budget;
+		// (the thread reports itself parked again when the new budget is used up)
+		if budget != Some(0) {
+			st.parked = false;
+		}
+	});
 	// (called by the harness thread: the entry keeps the decoder thread's identity)
 }
 
